@@ -228,7 +228,10 @@ func (e *enc) oblige(class, key, goal string, pos token.Pos, text string) {
 	o := &Obligation{Name: e.qn + "#" + class + ":" + key, Func: e.qn, Class: class, Key: key, Goal: goal, Guard: e.reach,
 		NAsserts: len(e.out.Asserts), Pos: e.posOf(pos), Text: text}
 	e.out.Obls = append(e.out.Obls, o)
-	e.assume(goal)
+	// end-of-path obligations are independent of each other: assuming one would mask the next
+	if class != "post" && class != "inv-pres" && class != "variant" {
+		e.assume(goal)
+	}
 }
 
 func (e *enc) srcText(pos token.Pos, want func(ast.Node) bool) string {
@@ -243,12 +246,18 @@ func (e *enc) srcText(pos token.Pos, want func(ast.Node) bool) string {
 
 func (e *enc) mkFld(base string, id int) string {
 	t := fmt.Sprintf("(fld %s %d)", base, id)
+	if strings.Contains(t, "q_") {
+		return t
+	}
 	e.assertOnce(fmt.Sprintf("(= (root %s) (root %s))", t, base))
 	return t
 }
 
 func (e *enc) mkElem(base, idx string) string {
 	t := fmt.Sprintf("(elem %s %s)", base, idx)
+	if strings.Contains(t, "q_") {
+		return t
+	}
 	e.assertOnce(fmt.Sprintf("(= (root %s) (root %s))", t, base))
 	return t
 }
@@ -819,7 +828,12 @@ func (e *enc) havocLocals(st *State, lm *localMods, tag string) {
 	for _, a := range cs {
 		t := a.Type().Underlying().(*types.Pointer).Elem()
 		n := e.fresh(e.cellName(a)+"_"+tag, sortOf(t))
+		e.cellSortOf[e.cellName(a)] = sortOf(t)
 		st.cells[e.cellName(a)] = n
+		if a.Comment == "rangeindex" {
+			// built by the SSA builder: initialised to -1 and only ever incremented
+			e.assume(fmt.Sprintf("(>= %s (- 1))", n))
+		}
 		e.assumeAll(e.facts(n, t, false))
 	}
 	var as []*ssa.Alloc
